@@ -23,10 +23,15 @@ type guardOutcome struct {
 type guardEnv struct {
 	p    *packagesPackage
 	bind map[types.Object]constant.Value
+	// opaque sub-expressions (accessor calls such as v.Mandatory(), v.Limit().Min) bound by their printed form
+	opaque map[string]constant.Value
 }
 
 func (g *guardEnv) val(e ast.Expr) constant.Value {
 	e = ast.Unparen(e)
+	if v, ok := g.opaque[types.ExprString(e)]; ok {
+		return v
+	}
 	if tv, ok := g.p.TypesInfo.Types[e]; ok && tv.Value != nil {
 		return tv.Value
 	}
@@ -52,6 +57,9 @@ func (g *guardEnv) val(e ast.Expr) constant.Value {
 
 func (g *guardEnv) cond(e ast.Expr) bool {
 	e = ast.Unparen(e)
+	if v, ok := g.opaque[types.ExprString(e)]; ok && v.Kind() == constant.Bool {
+		return constant.BoolVal(v)
+	}
 	switch x := e.(type) {
 	case *ast.BinaryExpr:
 		switch x.Op {
